@@ -6,7 +6,8 @@ import json, glob, os, re, sys
 DEST='/verif/seeded'
 notes=json.load(open('/verif/tools/seed_notes2.json'))
 notes.update(json.load(open('/verif/tools/seed_notes3.json')))
-if os.path.exists('/verif/tools/seed_notes4.json'): notes.update(json.load(open('/verif/tools/seed_notes4.json')))
+for _n in ('4','5'):
+    if os.path.exists('/verif/tools/seed_notes%s.json'%_n): notes.update(json.load(open('/verif/tools/seed_notes%s.json'%_n)))
 ONLY=sys.argv[1] if len(sys.argv)>1 else ''
 final={}
 for f in sorted(glob.glob(DEST+'/RESULTS.seed*.tsv')):
@@ -15,7 +16,14 @@ for f in sorted(glob.glob(DEST+'/RESULTS.seed*.tsv')):
         p=line.rstrip('\n').split('\t')
         if len(p)>=3: final.setdefault(p[0],{})[sd]=(p[2],p[3] if len(p)>3 else '')
 rows=[]
-for d in sorted([d for d in glob.glob(DEST+'/C*-*') if os.path.isdir(d) and int(d.split('-')[-1])>=4], key=lambda x:(x.split('/')[-1][:3], int(x.split('-')[-1]))):
+R4LAST=json.load(open('/verif/tools/round4_last_index.json'))
+def round_of(key):
+    k=int(key.split('-')[1])
+    if k<=3: return 1
+    if k<=6: return 2
+    if k<=9: return 3
+    return 4 if k<=R4LAST.get(key[:3],99) else 5
+for d in sorted([d for d in glob.glob(DEST+'/C*-*') if os.path.isdir(d) and os.path.exists(d+'/meta.json') and int(d.split('-')[-1])>=4], key=lambda x:(x.split('/')[-1][:3], int(x.split('-')[-1]))):
     key=os.path.basename(d)
     m=json.load(open(d+'/meta.json'))
     am=m.get('agent_meta') or {}
@@ -23,7 +31,7 @@ for d in sorted([d for d in glob.glob(DEST+'/C*-*') if os.path.isdir(d) and int(
         first=m.get('quick_tier_exit_codes',{})
         conf=m.get('confirmed',{})
         new={
-          'seed': key, 'round': 2 if int(key.split('-')[1])<=6 else (3 if int(key.split('-')[1])<=9 else 4), 'breaks_property': key[:3],
+          'seed': key, 'round': round_of(key), 'breaks_property': key[:3],
           'title': am.get('title',''), 'mechanism_it_is_aimed_at': am.get('mechanism',''), 'files_changed': am.get('files_changed',[]),
           'what_breaks': am.get('what_breaks',''), 'needs_to_manifest': am.get('needs_to_manifest',''),
           'violated_clause_as_quoted_by_its_author': am.get('violated_clause',''),
@@ -39,6 +47,7 @@ for d in sorted([d for d in glob.glob(DEST+'/C*-*') if os.path.isdir(d) and int(
         }
         m=new
     m['note']=notes.get(key,'')
+    m['round']=round_of(key)
     m['quick_tier_with_change_final']={('seed '+sd):{'exit':int(v[0]) if v[0].isdigit() else None,'first_signature':v[1]} for sd,v in final.get(key,{}).items()}
     json.dump(m, open(d+'/meta.json','w'), indent=1)
     for junk in ('meta.agent.json',):
